@@ -505,13 +505,37 @@ def climb(rep, c, sfx):
     params_u32 = set(p["id"] for p in rec["params"] if p.get("k") == "PBind" and p.get("ty") == "u32")
     used = set()
 
+    def canon(lid, depth=0):
+        """`let prec = match self.get(..) { Some((prec, _)) if .. => prec, _ => break }`: the outer and the inner
+        `prec` are one value"""
+        if depth > 4 or lid not in lets or modes.get(lid):
+            return lid
+        init = peel(lets[lid][0]) if lets[lid][0] is not None else None
+        if init is None:
+            return lid
+        if kind(init) == "Path" and init.get("res") == "local":
+            return canon(init["id"], depth + 1)
+        if kind(init) == "Match":
+            live = [a for a in init["arms"] if not (hirq.diverges(a["body"]) or a["body"].get("ty") == "!")]
+            ids = set()
+            for a in live:
+                b = peel(a["body"])
+                if kind(b) == "Path" and b.get("res") == "local":
+                    ids.add(b["id"])
+                else:
+                    return lid
+            if len(ids) == 1:
+                return canon(list(ids)[0], depth + 1)
+        return lid
+
     def ev(e, env):
         e = peel(e)
         k = kind(e)
         if k == "Path" and e.get("res") == "local":
-            if e.get("ty") == "u32":
-                used.add(e["id"])
-                return env.get(e["id"])
+            if str(e.get("ty", "")).lstrip("&") == "u32":
+                cid = canon(e["id"])
+                used.add(cid)
+                return env.get(cid)
             if e.get("ty") == "bool" and e["id"] in lets and not modes.get(e["id"]):
                 return ev(lets[e["id"]][0], env)
             if "Assoc" in str(e.get("ty", "")):
